@@ -955,6 +955,7 @@ func cacheViewFromFile(
 			return filePath, NewIOError(fileIdentifier, err.Error())
 		}
 
+		verifPoint("load.read", fileInfo.Path)
 		view, err = loadViewFromFile(ctx, scope.Tx.Flags, fp, fileInfo, options, fileIdentifier)
 		if err != nil {
 			if _, ok := err.(Error); !ok {
@@ -967,6 +968,7 @@ func cacheViewFromFile(
 		}
 		view.FileInfo.ForUpdate = forUpdate
 		scope.Tx.CachedViews.Set(view)
+		verifPoint("load.cached", fileInfo.Path)
 	}
 
 	if !scope.FilePathExists(fileIdentifier.Literal) {
